@@ -117,7 +117,10 @@ ModelOK == DefaultAdmitted /\ DefinitionKept /\ StateKept /\ KeptNotAdmitted /\ 
 GroupSets == IF GLevel = 1
              THEN { {}, {"pre", "post"}, {"bypass", "pre", "cont", "post", "deferred"} }
              ELSE { {}, {"pre", "post"}, {"bypass", "pre", "cont", "post", "deferred"}, {"cont"}, {"deferred"}, {"bypass", "post"} }
-Shapes == [nb : 1..MaxB, ns : 1..MaxS, na : 1..MaxA, pg : GroupSets, bg : GroupSets, retry : {0, 1}]
+\* bp: does the bypass group of the FIRST block pass ("pass": the block is skipped and ends Completed with untouched
+\* sequences - still part of the plan, so every clone must keep it) or fail (the block runs)
+Shapes == {s \in [nb : 1..MaxB, ns : 1..MaxS, na : 1..MaxA, pg : GroupSets, bg : GroupSets, retry : {0, 1}, bp : {"fail", "pass"}] :
+             s.bp = "pass" => "bypass" \in s.bg}
 (* where the blocked (running) / permanently failing (failed) action is *)
 Ats(st) == IF st \in {"running", "failed"} THEN {"first", "last"} ELSE {"-"}
 
@@ -129,7 +132,9 @@ Case(sh, st, at) ==
      \* demanded of the clones that strip state only ("By default ..."); DefaultAdmitted says Admit holds for them
      submit |-> [o \in Opts |-> IF ~KeepState(o) /\ Admit(Clone(Orig("Plan", st), "Plan", o), "Plan") THEN "accept" ELSE "free"]]
 
-Init == c \in UNION { { Case(sh, st, at) : at \in Ats(st) } : sh \in Shapes, st \in States }
+\* a passing block bypass is only combined with the completed state (no action of that block is ever invoked)
+Init == c \in UNION { { Case(sh, st, at) : at \in Ats(st) } : sh \in {x \in Shapes : x.bp = "fail"}, st \in States }
+           \cup { Case(sh, "completed", "-") : sh \in {x \in Shapes : x.bp = "pass"} }
 Next == UNCHANGED c
 Spec == Init /\ [][Next]_vars
 
